@@ -63,7 +63,7 @@ def serialCommand (d : Driver) (f : WFrame) (out : List Act) : List Step :=
 
 /-- body of the serial `send(msg, in_transaction)` below the lock -/
 def serialSendBody (d : Driver) (c : Cmd) (out : List Act) : List Step :=
-  [ { act := .flush1 } ] ++ serialCommand d c.frame out ++
+  [ { act := if d = .sci then .flush else .flush1 } ] ++ serialCommand d c.frame out ++
   (if c.query then [ { act := .poll, h := out } ] else [])
 
 def rawSend (d : Driver) (c : Cmd) (out : List Act) : List Step :=
